@@ -125,6 +125,8 @@ def main():
             res["props"][p] = {"exit": rc, "violation": bool(viol), "first": msg, "wall_s": round(time.time() - t0, 1)}
             # replay files of a mutant run are not findings on /repo: drop them
             for _, rp in viol:
+                if "/replay/regress/" in rp or "/replay/known/" in rp:
+                    continue  # committed inputs, not output of this run
                 try:
                     os.remove(rp)
                 except OSError:
